@@ -221,6 +221,17 @@ class Program:
                         add_nested(fi)
                     elif isinstance(m, ast.Assign) and len(m.targets) == 1 and isinstance(m.targets[0], ast.Name):
                         ci.class_attrs[m.targets[0].id] = m.value
+                    elif isinstance(m, ast.Assign) and len(m.targets) == 1 and isinstance(m.targets[0], (ast.Tuple, ast.List)) \
+                            and all(isinstance(t, ast.Name) for t in m.targets[0].elts):
+                        # A, B, C = (0, 1, 2) / range(3): each name is the element at its position
+                        for i_, t in enumerate(m.targets[0].elts):
+                            elt = m.value.elts[i_] if isinstance(m.value, (ast.Tuple, ast.List)) and len(m.value.elts) == len(m.targets[0].elts) \
+                                else ast.copy_location(ast.Subscript(value=m.value, slice=ast.Constant(value=i_), ctx=ast.Load()), m.value)
+                            ast.fix_missing_locations(elt)
+                            ci.class_attrs[t.id] = elt
+                    elif isinstance(m, ast.Assign) and len(m.targets) > 1 and all(isinstance(t, ast.Name) for t in m.targets):
+                        for t in m.targets:             # A = B = value
+                            ci.class_attrs[t.id] = m.value
                     elif isinstance(m, ast.AnnAssign) and isinstance(m.target, ast.Name) and m.value is not None:
                         ci.class_attrs[m.target.id] = m.value
             elif isinstance(n, ast.Import):
